@@ -24,12 +24,32 @@ func readnSpecs(read, wait string) []SiteSpec {
 }
 
 func propC20(c *Ctx) {
-	c.Explanation = "Request/response fidelity and message order over the stack's own TCP are end-to-end behaviour over runtime values and are NOT decided. Decided are the framing and routing tables whose agreement the round trip needs: (X1) Conn.SendData: the frame buffer is allocated afresh on every call (the stack keeps the slice handed to Write by reference until it is acknowledged and, on loopback, until it is read - reuse would overwrite frames in flight), first byte FIN|Text = 0x81, and the RFC 6455 length encoding - len <= 125: the length itself; 126..65535: marker 126 + 2 bytes big-endian; >= 65536: marker 127 + 8 bytes big-endian - with byte()/uint16() conversions lossless in their branches, payload copied at 2+ext and exactly 2+ext+len bytes written; no index/slice out of range. Conn.ReadData: exactly 2 header bytes first; only FIN text frames accepted (close closes the connection); 126 -> 2 more bytes big-endian, 127 -> 8 more, else the 7-bit value; mask bit -> 4 key bytes before the payload; payload buffer of exactly the decoded length read in full; unmasking applied exactly when the mask bit was set; the two tables use the same thresholds and byte order. maskBytes XORs byte i with key[i mod 4]. (X2) computeAcceptKey = base64-std(SHA-1(key || GUID)) with the RFC 6455 GUID, never reassigned; Upgrade answers 101 with that value for the Sec-WebSocket-Key header only after the method/version/connection/upgrade/key checks passed. (X3) ServeMux.dispatch calls a handler only when the request URI is a key of the route table, and then the one stored under that key with the connection's request and response; otherwise status 400 and no handler; HandleFunc stores exactly (pattern -> handler) under the mux lock. (X4) both Readn copies: bytes are appended in arrival order, len(p) bytes are copied only when available and exactly len(p) are consumed. (X5) the HTTP parser and the two serialisers use the same syntax: match_until splits at the first occurrence of its delimiter; the parser splits the request line at two spaces and CRLF, each header at the first ': ' and the next CRLF (the value is not split again), stores (name, value) verbatim, keeps the remainder as the body and calls no other tokeniser; the client request and the server response are built as line, 'name: value' CRLF per header, blank line, body. (X6) the server's accept loop waits for a notification only after Accept found the queue empty. (X7) frame lengths are narrowed only inside their length class. NOT decided: that parse(serialise(m)) = m for every message (names/values that themselves contain the delimiters), delivery and ordering through TCP, partial writes (ServerSocket.Write ignores the endpoint's result - observation)."
+	c.Explanation = "Request/response fidelity and message order over the stack's own TCP are end-to-end behaviour over runtime values and are NOT decided. Decided are the framing and routing tables whose agreement the round trip needs: (X1) Conn.SendData: the frame buffer is allocated afresh on every call (the stack keeps the slice handed to Write by reference until it is acknowledged and, on loopback, until it is read - reuse would overwrite frames in flight), first byte FIN|Text = 0x81, and the RFC 6455 length encoding - len <= 125: the length itself; 126..65535: marker 126 + 2 bytes big-endian; >= 65536: marker 127 + 8 bytes big-endian - with byte()/uint16() conversions lossless in their branches, payload copied at 2+ext and exactly 2+ext+len bytes written; no index/slice out of range. Conn.ReadData: exactly 2 header bytes first; only FIN text frames accepted (close closes the connection); 126 -> 2 more bytes big-endian, 127 -> 8 more, else the 7-bit value; mask bit -> 4 key bytes before the payload; payload buffer of exactly the decoded length read in full; unmasking applied exactly when the mask bit was set; the two tables use the same thresholds and byte order. maskBytes XORs byte i with key[i mod 4]. (X2) computeAcceptKey = base64-std(SHA-1(key || GUID)) with the RFC 6455 GUID, never reassigned; Upgrade answers 101 with that value for the Sec-WebSocket-Key header only after the method/version/connection/upgrade/key checks passed. (X3) ServeMux.dispatch calls a handler only when the request URI is a key of the route table, and then the one stored under that key with the connection's request and response; otherwise status 400 and no handler; HandleFunc stores exactly (pattern -> handler) under the mux lock. (X4) both Readn copies: bytes are appended in arrival order, len(p) bytes are copied only when available and exactly len(p) are consumed. (X5) the HTTP parser and the two serialisers use the same syntax: match_until splits at the first occurrence of its delimiter; the parser splits the request line at two spaces and CRLF, each header at the first ': ' and the next CRLF (the value is not split again), stores (name, value) verbatim, keeps the remainder as the body and calls no other tokeniser; the client request and the server response are built as line, 'name: value' CRLF per header, blank line, body. (X6) the server's accept loop waits for a notification only after Accept found the queue empty. (X7) frame lengths are narrowed only inside their length class. (X8) the status a response goes out with: 200 from the constructor, the parser's direct error stores are 400, and set_status_code fills in only an unset (zero) status and is the only other writer, so a late classification cannot override the handler's 200. NOT decided: that parse(serialise(m)) = m for every message (names/values that themselves contain the delimiters), delivery and ordering through TCP, partial writes (ServerSocket.Write ignores the endpoint's result - observation)."
 	cn := "(*websocket.Conn)."
 	an := NewAbsint(c.P)
 
 	listenerAcceptLoopRule(c, c.Rule("X6", "K1 guards", "the server accept loop waits for a notification only after Accept found the queue empty", 2), "(*http.Server).ListenAndServ")
 	c.NoNewNarrowing(c.Rule("X7", "K8 narrowing (closed world, reviewed table)", "frame lengths are narrowed only inside their length class", 5), []string{"/application/websocket", "/application/http", "/tcp/client", "/udp/client"}, narrowApp)
+	x8 := c.Rule("X8", "K3 confinement + K7 exact-guard site tables", "the status a response goes out with: 200 from the constructor until the parser records an error; set_status_code only fills an unset (zero) status, so a classification made after the constructor never overrides the handler's 200", 5)
+	c.OnlyIn(x8, "store to Connection.status_code", c.FieldStores("http.Connection", "status_code"), "http.NewCon", "(*http.Connection).set_status_code", "(*http.Request).parse")
+	if fn := c.Fn(x8, "(*http.Connection).set_status_code"); fn != nil {
+		c.CheckSites(x8, fn, []SiteSpec{
+			{Kind: "store", Target: "http.Connection.status_code", Args: []string{"$0", "$1"}, Guards: []string{"($0.status_code == 0)"}, Exact: true, N: 1, Why: "only an unset status is filled in: the constructor's 200 (and any error recorded earlier) stays"},
+		})
+	}
+	if fn := c.Fn(x8, "http.NewCon"); fn != nil {
+		n := 0
+		for _, st := range StoresTo(fn, "http.Connection", "status_code") {
+			n++
+			c.Check(Term(st.Val) == "200", x8, FuncName(fn)+"/initial-status:"+Term(st.Val), c.pos(st), "a new connection starts with status 200", "a new connection does not start with status 200")
+		}
+		c.Check(n == 1, x8, FuncName(fn)+"/one-initial-status", c.P.Pos(fn.Pos()), "one initial store", "number of initial status stores changed")
+	}
+	if fn := c.Fn(x8, "(*http.Request).parse"); fn != nil {
+		for _, st := range StoresTo(fn, "http.Connection", "status_code") {
+			c.Check(Term(st.Val) == "400", x8, FuncName(fn)+"/parse-error-status:"+Term(st.Val), c.pos(st), "the parser's direct stores record 400 Bad Request", "the parser records a status other than 400 directly")
+		}
+	}
 	x1 := c.Rule("X1", "K7 site tables + K8 intervals + K9 agreement", "WebSocket frame writer/reader tables", 30)
 	if fn := c.Fn(x1, cn+"SendData"); fn != nil {
 		ln := "builtin:len($1)"
